@@ -142,9 +142,9 @@ package unite
 //@   requires [C09] (len(item) < dsc.opts.JoinSize && !gClosed
 //@            && !(gOutN + len(item) == gBprev && len(item) + (gB - gBprev) > dsc.opts.JoinSize)) ==> gClock - gLastDeliv >= dsc.opts.Timeout
 //@   requires [C08] OWN(dsc)
-//@   modifies gOutN, gLastDeliv, gLent, gOwned
+//@   modifies gOutN, gLastDeliv, gLent, gOwned, gClock
 //@   ensures [C03 C09 C11] gOutN == old(gOutN) + len(item)
-//@   ensures [C09] gLastDeliv == gClock
+//@   ensures [C09] gLastDeliv <= gClock && gClock >= old(gClock)
 //@   ensures [C08] OWN(dsc)
 
 //@ func (*Discipline).forward
